@@ -25,6 +25,7 @@ RULE = (
     "5 (thorough) nodes over 9 node labels. Non-trivial: parsed tree has depth >= 2 and >= 2 "
     "distinct element classes; distinct by input text."
 )
+RULE += (' find() is also queried with every pair of classes (both orders) and the empty class list. (history) an arbitrary, typically unterminated string is parsed first, then a well-formed document is held to the whole (wf) oracle: the result for a text does not depend on earlier calls.')
 ASSUMPTIONS = [
     "well-formed = the forms listed in the property statement, spelled canonically "
     "(upper-case names, unquoted/entity-bearing attribute values, duplicate attributes, CDATA "
@@ -99,10 +100,11 @@ def check_soup(acc, text: str) -> list[dict]:
     vs = []
     nontrivial = False
     cls = []
-    for conv in (False, True):
+    # the root may be given a name (second parameter of the public function): no closing tag ever closes the root
+    for conv, rootname in ((False, ""), (True, ""), (False, "div"), (False, "a")):
         try:
             with watchdog(20):
-                root = tokenize_html(text, convert_charrefs=conv)
+                root = tokenize_html(text, rootname, convert_charrefs=conv)
         except CaseTimeout:
             vs.append(mk("C16:nontermination", text, "terminates", "no result after 20s"))
             continue
@@ -115,7 +117,7 @@ def check_soup(acc, text: str) -> list[dict]:
             str(root)
         except Exception as exc:  # noqa: BLE001
             vs.append(mk("C16:render-" + _exc_sig(exc), text, "renders", f"{type(exc).__name__}: {exc}"))
-        if not conv:
+        if not conv and not rootname:
             d, classes, _ = tree_stats(root)
             nontrivial = d >= 2 and len(classes - {"Root"}) >= 2
             cls.extend(sorted(classes))
@@ -177,6 +179,19 @@ def check_wellformed(acc, text: str) -> list[dict]:
         if shape(sp) != filt(root, 0):
             vs.append(mk(f"C16:strip-recurse={recurse}-wrong-content", text, repr(filt(root, 0))[:300],
                          repr(shape(sp))[:300]))
+    # ... also when the copies are edited afterwards (attributes, children): they share nothing with the original
+    for other in (cp, root.strip(recurse=True), root.strip(recurse=False)):
+        for e in list(other.walk(include_self=True)):
+            if isinstance(e, ph.Element) and not isinstance(e, ph.Data):
+                try:
+                    e.attrs["class"] = "edited-on-copy"
+                    e.attrs["data-verif"] = "1"
+                except Exception:  # noqa: BLE001  (terminal elements have no attribute mapping)
+                    pass
+        for e in list(other.walk(include_self=True)):
+            if e.children:
+                e.children.pop()
+                break
     after = [(id(e), _describe(e), [id(c) for c in e.children], id(e.parent) if e.parent is not None else None)
              for e in root.walk(include_self=True)]
     if after != before or str(root) != out:
@@ -351,6 +366,93 @@ def sub_history(acc, shard, nshards, tier, seed):
             seed=shard_seed(seed, shard, 11), is_known=known().matches)
 
 
+def deep_text(shape: str, n: int) -> str:
+    if shape == "balanced":
+        return "<div>" * n + "x" + "</div>" * n
+    if shape == "unclosed":
+        return "<div>" * n + "x"
+    if shape == "misnested":
+        return "<a><p>" * (n // 2) + "x" + "</a>" * (n // 2)
+    if shape == "attrs":
+        return '<b class="k">' * n + "<br>" + "</b>" * n
+    raise ValueError(shape)
+
+
+def check_deep(acc, case) -> list[dict]:
+    """Totality and parent consistency do not depend on the nesting depth (the parser keeps an explicit stack).  The
+    tree is inspected with an explicit stack, too; the library's own recursive walk / render / copy hit Python's
+    recursion limit on deep trees, which is a recorded finding."""
+    from myst_parser.parsers import parse_html as ph
+
+    mk = _mk(acc)
+    text = deep_text(case["shape"], case["depth"])
+    try:
+        with watchdog(60):
+            root = ph.tokenize_html(text)
+    except CaseTimeout:
+        return [mk("C16:nontermination", case, "terminates", "no result after 60s")]
+    except Exception as exc:  # noqa: BLE001
+        return [mk(_exc_sig(exc), case, "a tree", f"{type(exc).__name__}: {str(exc)[:200]}")]
+    vs = []
+    stack, count, depth = [(root, 0)], 0, 0
+    seen = set()
+    while stack:
+        e, d = stack.pop()
+        if id(e) in seen:
+            vs.append(mk("C16:element-reachable-twice", case, "once", repr(e)[:80]))
+            break
+        seen.add(id(e))
+        count += 1
+        depth = max(depth, d)
+        for c in e.children:
+            if c.parent is not e:
+                vs.append(mk("C16:child-parent-mismatch", case, repr(e)[:60], repr(c.parent)[:60]))
+                stack = []
+                break
+            stack.append((c, d + 1))
+    if case["shape"] in ("balanced", "unclosed", "attrs") and depth < case["depth"]:
+        vs.append(mk("C16:deep-tree-truncated", case, f"depth >= {case['depth']}", depth))
+    limited = False
+    for name, fn in (("render", lambda: str(root)), ("walk", lambda: sum(1 for _ in root.walk())),
+                     ("deepcopy", lambda: root.deepcopy()), ("strip", lambda: root.strip(recurse=True)),
+                     ("find", lambda: list(root.find("div")))):
+        try:
+            out = fn()
+        except RecursionError:
+            limited = True
+            vs.append(mk("C16:recursion-limit-on-deep-tree", case, f"{name}() works at any depth", "RecursionError"))
+            continue
+        if name == "render" and case["shape"] in ("balanced", "attrs") and out != text:
+            vs.append(mk("C16:roundtrip-differs", case, text[:80], out[:80]))
+        if name == "walk" and out != count - 1:
+            vs.append(mk("C16:walk-count", case, count - 1, out))
+    if acc is not None:
+        acc.case(repr(case), True, [f"deep:{case['shape']}", "deep:library-recursion-" + ("limited" if limited else "ok")], sample=case)
+    out_vs, seen_s = [], set()
+    for v in vs:
+        if v["signature"] not in seen_s:
+            seen_s.add(v["signature"])
+            out_vs.append(v)
+    return out_vs
+
+
+def sub_deep(acc, shard, nshards, tier, seed):
+    kn = known()
+    depths = [50, 200, 400, 700, 980, 1000, 1030, 1500, 3000] + ([6000, 20000] if tier == "thorough" else [])
+    i = 0
+    for shape in ("balanced", "unclosed", "misnested", "attrs"):
+        for depth in depths:
+            i += 1
+            if i % nshards != shard:
+                continue
+            for v in check_deep(acc, {"shape": shape, "depth": depth}):
+                if kn.matches(v):
+                    acc.known_hits[v["signature"]] += 1
+                elif len(acc.violations) < 8 and all(v["signature"] != w["signature"] for w in acc.violations):
+                    acc.violations.append(v)
+    acc.exhaustive = True
+
+
 # exhaustive forests: labels; 'T' labels may have children
 LABELS = [("T", "a"), ("T", "b"), ("V", "<br>"), ("X", "<c/>"), ("D", "x"), ("D", " "),
           ("C", "<!--c-->"), ("E", "&amp;"), ("T", 'a class="k"')]
@@ -402,10 +504,10 @@ def sub_atheris(acc, shard, nshards, tier, seed):
 
 def plan(tier):
     subs = [Sub("soup", sub_soup, 8), Sub("wellformed", sub_wf, 12), Sub("enum", sub_enum, 12),
-            Sub("history", sub_history, 4)]
+            Sub("history", sub_history, 4), Sub("deep", sub_deep, 2)]
     if tier == "thorough":
         subs = [Sub("soup", sub_soup, 16), Sub("wellformed", sub_wf, 16), Sub("enum", sub_enum, 16),
-                Sub("history", sub_history, 8), Sub("atheris", sub_atheris, 4)]
+                Sub("history", sub_history, 8), Sub("deep", sub_deep, 4), Sub("atheris", sub_atheris, 4)]
     return subs
 
 
@@ -414,4 +516,6 @@ def replay(sub, input):
         return check_soup(None, input)
     if sub == "history":
         return check_history(None, tuple(input))
+    if sub == "deep":
+        return check_deep(None, input)
     return check_wellformed(None, input)
